@@ -131,6 +131,8 @@ ATTRS = ['x', 'name=x', 'expr="x"', '"x+1"', '"1+"', 'a=b', 'size=3',
          'branches=b', 'expr="x', 'a b c', 'x y', 'name=x name=y',
          'expr="a" expr="b"', 'no_push_item', 'skip_unauthorized',
          'reverse_expr="0"', 'capitalize lower', 'VfA VfB', 'leaves=l',
+         'size=big', 'size=1.5', 'size=""', 'size=-1', 'start=x', 'etc=',
+         'size', 'orphan=x', 'fmt=""', 'null', 'size="3 "',
          '\n', ' \n x', 'x\n']
 RAW = ['<', '>', '<dtml-', '</dtml-', '<!--#', '-->', '&dtml-', '&dtml.',
        '&dtml', ';', '%(', ')s', ')[', ')]', ')', '"', "'", ' ', '\n',
@@ -507,6 +509,12 @@ def valid_families():
         '<dtml-unless x>a</dtml-unless>',
         '<dtml-try>a<dtml-except A B>b<dtml-except>c<dtml-else>d</dtml-try>',
         '<dtml-try>a<dtml-finally>b</dtml-try>',
+        # what an attribute's value is, is not part of the tag grammar: a
+        # size that is no number is found when the value is inserted
+        '<dtml-var x size=big>', '<dtml-var x size=1.5 etc="..">',
+        '<dtml-var x size="" etc="...">', '<dtml-var x size>',
+        '<dtml-if a><dtml-var title size=big></dtml-if>',
+        '<dtml-in s size=sz start=st orphan=orp overlap=ov>a</dtml-in>',
         '<dtml-var x fmt="%s">', '<dtml-var x fmt=%05d>',
         '<dtml-var x null="" missing="">', '<dtml-var name=x>',
         '<dtml-var expr="x">', '<dtml-var "x[0] + y.z">',
